@@ -163,7 +163,21 @@ theorem runPass_keeps (Q : Seg → Prop) (hQ : ActionKeeps Q) (p : PassT) (c : C
         rw [noteLoop_seg]
         exact ruleLoop_keeps Q hQ p _ _ _ _ 0 (show Q (c.restartAt _).seg from h) hr
 
-theorem runRange_keeps (Q : Seg → Prop) (hQ : ActionKeeps Q) (passes : Array PassT) (c : Ctx) (lo hi fuel : Nat) (h : Q c.seg)
+/-- the property survives a reversal of the stream -/
+def ReverseKeeps (Q : Seg → Prop) : Prop := ∀ (s : Seg) (mark : Nat → Bool), Q s → Q (s.reverseSlots mark)
+
+theorem runPassDir_keeps (Q : Seg → Prop) (hQ : ActionKeeps Q) (hR : ReverseKeeps Q) (p : PassT) (c : Ctx) (fuel : Nat) (h : Q c.seg) {c' : Ctx}
+    (e : runPassDir p c fuel = .ok (some c')) : Q c'.seg := by
+  unfold runPassDir at e
+  split at e
+  · cases e; exact h
+  · simp only [] at e
+    refine runPass_keeps Q hQ p _ fuel ?_ e
+    split
+    · exact hR _ _ h
+    · exact h
+
+theorem runRange_keeps (Q : Seg → Prop) (hQ : ActionKeeps Q) (hR : ReverseKeeps Q) (passes : Array PassT) (c : Ctx) (lo hi fuel : Nat) (h : Q c.seg)
     {c' : Ctx} (e : runRange passes c lo hi fuel = .ok (some c')) : Q c'.seg := by
   unfold runRange at e
   simp only [] at e
@@ -177,7 +191,7 @@ theorem runRange_keeps (Q : Seg → Prop) (hQ : ActionKeeps Q) (passes : Array P
       ∀ x, ks.foldl (fun (acc : Except String (Option Ctx)) k =>
         match acc with
         | .ok (some c1) =>
-          (match runPass (passes.getD (lo + k) default) c1 fuel with
+          (match runPassDir (passes.getD (lo + k) default) c1 fuel with
            | .ok (some c2) => if c2.seg.numGlyphs > 0 ∧ c2.seg.numGlyphs > c.seg.numGlyphs * 64 then .ok none else .ok (some c2)
            | o => o)
         | o => o) acc = .ok (some x) → Q x.seg := by
@@ -196,7 +210,7 @@ theorem runRange_keeps (Q : Seg → Prop) (hQ : ActionKeeps Q) (passes : Array P
           split at hy
           · cases hy
           · cases hy
-            exact runPass_keeps Q hQ _ c1 fuel (ha c1 rfl) hp
+            exact runPassDir_keeps Q hQ hR _ c1 fuel (ha c1 rfl) hp
         · rename_i o hno
           exact absurd hy (by
             intro hh
@@ -205,6 +219,15 @@ theorem runRange_keeps (Q : Seg → Prop) (hQ : ActionKeeps Q) (passes : Array P
         exact absurd hy (fun hh => hno y hh)
   intro e
   exact this ks (.ok (some c0)) (fun x hx => by cases hx; exact h0) c' e
+
+theorem reverse_assoc (n : Int) : ReverseKeeps (AssocOK n) := by
+  intro s mark h
+  have hs := reverseSlots_same s mark
+  refine ⟨fun j => ?_, by rw [hs.defaultOriginal]; exact h.2.1, by rw [hs.defaultOriginal]; exact h.2.2⟩
+  have := hs.slot j
+  unfold LinkOnly at this
+  rw [this]
+  exact h.1 j
 
 /-! ## `read_text` -/
 
@@ -246,7 +269,7 @@ theorem appendAll_assoc {n : Int} (gf : Nat → Nat) (af : Nat → Int) : ∀ (x
     exact ih _ (appendSlot_assoc h _ _ _ _ (hx x List.mem_cons_self)) (fun y hy => hx y (List.mem_cons_of_mem _ hy))
 
 /-- `read_text`: slot `k` is associated with character `k` -/
-theorem initSeg_assoc (font : Font) (text : List Nat) (hn : 0 < text.length) : AssocOK (text.length : Int) (initSeg font text) := by
+theorem initSeg_assoc (font : Font) (text : List Nat) (hn : 0 < text.length) (dir : Nat := 0) : AssocOK (text.length : Int) (initSeg font text dir) := by
   unfold initSeg
   simp only []
   refine appendAll_assoc font.cmap (fun ch => font.gadv.getD (font.cmap ch) 0) text.zipIdx _ ⟨fun j => ?_, ?_, ?_⟩ ?_
@@ -496,8 +519,8 @@ theorem reassoc_assoc {seg seg' : Seg} {n : Nat} {ci : List Assoc.CI} (h : Assoc
 /-- **C05, slot side, whole pipeline.** Whatever the font's passes, rules and action programs, and whatever the (non-empty)
 text of `n` characters: every slot record of a segment the modelled pipeline returns has `before`, `after` and `original`
 in `[0, n)`. -/
-theorem shape_assoc (font : Font) (text : List Nat) (fuel : Nat) (hn : 0 < text.length) {c : Ctx} {ci : List Assoc.CI}
-    (e : shape font text fuel = .ok (some (c, ci))) : AssocOK (text.length : Int) c.seg := by
+theorem shape_assoc (font : Font) (text : List Nat) (fuel : Nat) (dir : Nat) (hn : 0 < text.length) {c : Ctx} {ci : List Assoc.CI}
+    (e : shape font text fuel dir = .ok (some (c, ci))) : AssocOK (text.length : Int) c.seg := by
   have hk : ActionKeeps (AssocOK (text.length : Int)) := fun is dl mr data ctx r st so c h e => doAction_assoc (by omega) is dl mr data ctx h e
   unfold shape at e
   split at e
@@ -506,7 +529,7 @@ theorem shape_assoc (font : Font) (text : List Nat) (fuel : Nat) (hn : 0 < text.
     · cases e
     · cases e
     · rename_i c1 h1
-      have w1 : AssocOK (text.length : Int) c1.seg := runRange_keeps _ hk _ _ _ _ _ (initSeg_assoc font text hn) h1
+      have w1 : AssocOK (text.length : Int) c1.seg := runRange_keeps _ hk (reverse_assoc _) _ _ _ _ _ (initSeg_assoc font text hn dir) h1
       split at e
       · cases e
       · rename_i seg' ci' hre
@@ -517,6 +540,6 @@ theorem shape_assoc (font : Font) (text : List Nat) (fuel : Nat) (hn : 0 < text.
         · rename_i c2 h2
           simp only [Except.ok.injEq, Option.some.injEq, Prod.mk.injEq] at e
           rw [← e.1]
-          exact runRange_keeps _ hk _ _ _ _ _ w2 h2
+          exact runRange_keeps _ hk (reverse_assoc _) _ _ _ _ _ w2 h2
 
 end GrVerif.Pass
